@@ -16,6 +16,7 @@ LEVEL_TEXT = (
     "waiting for shutdown triggers; the reload service starts what it loaded; import edges are recorded"
     "; on dotted sub-module imports too; everything a reload re-runs is started by start_global_contexts with the same argument; the configuration remembered for the reload comparison is not aliased by the script's copy; an already loaded module is reused whichever candidate name it was loaded under; a file's context knows its path before its code runs"
     '; importers of a deleted module are re-run; widening for a changed global flag happens once; imports made inside functions are recorded on the defining context'
+    '; import closure complete under cycles; a deleted file of an app/module package is a change of the package; one unreadable file does not abort discovery'
 )
 LEVEL_NOTE = "file discovery (glob, '#' skipping, app gating) is summarised by the model's file table; module re-import during load is not modelled (load_file is an event)"
 TECHNIQUE = "abstract interpretation of load_scripts (closure recursion, sets and dicts modelled concretely) on finite file-tree scenarios compared with the statement's expected discard/load sets; ordered events"
